@@ -87,7 +87,7 @@ def fuzz_contract(c, n, seed):
             except Exception:
                 warm = None
         envc = copy.deepcopy(env)
-        rep = replay_native(c, env, warmup=warm)
+        rep = replay_native(c, env, warmup=warm, rng=rng)
         if rep.get('note') and not rep.get('confirmed') and 'requires' in rep.get('note', ''):
             runs -= 1
             rejected += 1
@@ -96,12 +96,10 @@ def fuzz_contract(c, n, seed):
             fl = {'input': {k: _jsonable(v) for k, v in envc.items()}, 'observed': rep.get('observed'), 'expected': rep.get('expected')}
             if rep.get('warmup'):
                 fl['after_earlier_call_with'] = rep['warmup']
+            if rep.get('perturbed'):
+                fl['object_changed_in_between'] = rep['perturbed']
             # classify against pins
-            if c.pins:
-                try:
-                    fl['pin'] = classify_pin(c, envc)
-                except Exception:
-                    fl['pin'] = None
+            fl['pin'] = rep.get('pin')
             if len(failures) < 5 or fl.get('pin') is None:
                 failures.append(fl)
             if len([f for f in failures if f.get('pin') is None]) >= 3:
